@@ -536,7 +536,12 @@ class Changelog(object):
                 self._parse_error('Empty changelog file.', strict)
                 return
 
-            file = file.splitlines()
+            # Only a newline (with an optional carriage return before it) ends
+            # a line: splitlines() would also cut lines at form feeds, U+2028
+            # and other characters that are ordinary text in a changelog
+            file = re.split('\r?\n', file)
+            if not file[-1]:
+                del file[-1]
         for line in file:
             if not isinstance(line, str):
                 line = line.decode(encoding)
